@@ -14,7 +14,7 @@ CHECKS = {
         note='Lean kernel + standard axioms; Model/IterCtl.lean abstracts the Levenberg-Marquardt step and the tolerance test as parameters: convergence from a guess in the basin is a '
              'numerical fact measured by the oracle, not proved; TRL / SOLR are posed for the 8- and 10-term types only (the 12/14-term models are not determined by them); the '
              'repeatability model is statistical: limits of a few sigma.',
-        ref='DESIGN.md §6 C02'),
+        ref='DESIGN.md §5 C02'),
     'C03': dict(
         technique='Lean 4 proof (memory-safety theorems of the object models: vnadata histories incl. failed allocations, handle-table bounds, loader bounds and progress) + sanitizer and allocation-accounting oracle on interleaved random histories over all object kinds',
         text='Theorems: no operation of any vnadata history reaches outside an allocation (also after a failed allocation); a handle the parameter table accepts indexes inside the slot '
@@ -25,7 +25,7 @@ CHECKS = {
              'convert): no report, every object freed, nothing remains.',
         note='Lean kernel + standard axioms; the models are those of C06/C09/C12/C15/C16 with their correspondence ties; for vnacal_new / solver / save internals there is no model: they are '
              'covered by the sanitizer oracle only (also in C01, C02, C12, C17, C18, C20); UBSan nonnull-attribute (zero-length memcpy/memset on NULL) is not counted; libyaml/libc trusted.',
-        ref='DESIGN.md §6 C03'),
+        ref='DESIGN.md §5 C03'),
     'C04': dict(
         technique='Lean 4 proof over a model regenerated from the C source (clang AST translator) + differential run of the generated model against the compiled C + defining-relation oracle',
         text='All 81 two-port vnaconv functions are re-translated from /repo/src on every run and, for each, Lean re-checks: '
@@ -37,7 +37,7 @@ CHECKS = {
         note='Lean kernel + propext/Classical.choice/Quot.sound; tools/tr_conv2.py and clang-14 AST (validated each run by executing '
              'the generated Float rendering against the compiled C); Spec/ConvRel.lean transcribes vnaconv(3); IEEE rounding not modelled; '
              'zi theorems for non-S inputs additionally assume the S representation exists.',
-        ref='DESIGN.md §6 C04'),
+        ref='DESIGN.md §5 C04'),
     'C15': dict(
         technique='Lean 4 proof (invariant by induction over operation histories) on a hand model + line-protocol correspondence run against the compiled C + abstract-array oracle',
         text='Concrete model of vnadata_t (allocation sizes + content, every access checked against the allocation). Theorems for every '
@@ -47,7 +47,7 @@ CHECKS = {
              'bounded-exhaustive and random histories; both must equal an independent abstract array.',
         note='Lean kernel + standard axioms; Model/VData.lean is hand-written and tied to the C only by the correspondence run (differential-testing strength); '
              'fault-free allocation (faults are C12); UBSan nonnull-attribute (zero-length memcpy/memset on NULL) deliberately not counted.',
-        ref='DESIGN.md §6 C15'),
+        ref='DESIGN.md §5 C15'),
     'C05': dict(
         technique='Lean 4 proof: dispatch table regenerated from the C source and decided entry by entry (decide) + theorems on a hand model of the control flow + correspondence run + per-frequency vnaconv oracle',
         text='tr_tables re-extracts conversion_table, the enum codes and the six function-pointer groups from vnadata_convert.c on every run; '
@@ -57,7 +57,7 @@ CHECKS = {
              'modes x in-place/into, compared with each other and with the real vnaconv functions applied per frequency; chaining A->B->C = A->C.',
         note='Lean kernel + standard axioms; tools/tr_tables.py + clang AST; Model/VConvert.lean hand-written, tied by correspondence; numeric conversions are C04; '
              'in-place == out-of-place is checked on runs (digest equality), not yet a theorem.',
-        ref='DESIGN.md §6 C05'),
+        ref='DESIGN.md §5 C05'),
     'C10': dict(
         technique='Lean 4 proof over an ordered field on a hand model of the interpolators + correspondence run on doubles + knot/hint/linearity oracles',
         text='Theorems for every knot vector, every n >= 1, every hint and every query: the rfi segment search returns a segment that bounds x, '
@@ -67,7 +67,7 @@ CHECKS = {
              'knot exactness and hint independence are checked bit-exactly on the C.',
         note='Lean kernel + standard axioms; Model/Interp.lean hand-written (Bulirsch-Stoer arithmetic is a parameter of the theorems; reproduction of rational '
              'functions between knots is sampled only); range checks at the four call sites are exercised through the calibration harness.',
-        ref='DESIGN.md §6 C10'),
+        ref='DESIGN.md §5 C10'),
     'C13': dict(
         technique='Lean 4 proof on a hand model of the document tree and descriptor scanner/parser + line-by-line correspondence run + abstract-document oracle written from the manual',
         text='Theorems for every tree, key and path: set-then-get returns the stored value with conflicting nodes replaced; sets and deletes leave other keys / '
@@ -77,7 +77,7 @@ CHECKS = {
              'and both must equal an independent document model.',
         note='Lean kernel, no axioms beyond propext/Quot.sound where simp uses them; Model/PropTree.lean hand-written (hash chains modelled as an ordered association list), '
              'tied by the correspondence run; tools/props/pspec.py is the oracle.',
-        ref='DESIGN.md §6 C13'),
+        ref='DESIGN.md §5 C13'),
     'C14': dict(
         technique='Lean 4 proof (mutual structural induction over the tree) of import(export t) = t under an explicit libyaml contract + round trips through the real library with the contract itself tested',
         text='import_export: for every tree whose keys are non-empty, NUL-free and distinct, exporting, passing through any libyaml behaviour that satisfies the stated '
@@ -86,7 +86,7 @@ CHECKS = {
              'the document model; libyaml\'s node tree is compared with the contract on every document.',
         note='Lean kernel + standard axioms; libyaml contract (kinds, order, bytes, plain/non-plain style of the null spellings) is a hypothesis, sampled every run; '
              'Model/Yaml.lean hand-written.',
-        ref='DESIGN.md §6 C14'),
+        ref='DESIGN.md §5 C14'),
     'C01': dict(
         technique='Lean 4 proof in non-commutative ring algebra (all port counts at once) that the E-term network satisfies the T/U equations and that apply inverts measure + end-to-end run against an independent physical simulator + saved-term equation check',
         text='Theorems over an arbitrary ring (instantiated by n x n complex matrices for every n): the measurement of any device through any E-term network '
@@ -97,14 +97,14 @@ CHECKS = {
              'and the terms in the saved file must satisfy the documented equation for an independent device.',
         note='Lean kernel + standard axioms; the equation generator of the C (build_equation_terms) is not modelled: it is exercised end to end only; calsim.py/calfile.py '
              'are the independent oracle; rounding tolerance 1e-8; leakage cells never measured are taken as 0 by the library (documented use of full matrices).',
-        ref='DESIGN.md §6 C01'),
+        ref='DESIGN.md §5 C01'),
     'C17': dict(
         technique='Lean 4 algebraic theorems (a/b column scaling, scalar freedom, apply depends only on the satisfied equation) + metamorphic pairs against the physical simulator',
         text='ab_column_scaling: (B D)(A D)^-1 = B A^-1; applyT_scale_invariant; applyT_eq_of_both_satisfy: terms entered in any way that satisfy the same equation '
              'correct identically. Eight metamorphic relations (through=line=mapped, full=abbreviated, order, a/b scaling, unrelated calibrations, frequencies together vs '
              'split, E12 vs UE14, port renumbering) are run on every type and dimension with the same E-network and device on both sides.',
         note='Lean kernel + standard axioms; metamorphic relations are checked on runs, the algebraic core is proved; tolerance 1e-8.',
-        ref='DESIGN.md §6 C17'),
+        ref='DESIGN.md §5 C17'),
     'C20': dict(
         technique='Lean 4 theorems (underdetermined systems never have a unique solution; determined consistent systems have exactly the true one) + add/solve histories classified by an independent Jacobian-rank identifiability test',
         text='too_few_no_unique: with fewer equations than unknowns every solution has a different equally good neighbour, so refusing is the only sound answer; '
@@ -113,7 +113,7 @@ CHECKS = {
              'failed attempts must not disturb later ones and must not leak.',
         note='Lean kernel + standard axioms; the identifiability test (tools/props/c20.py) is conservative for 16-term types (only full-S standards counted); '
              'nothing is asserted for sets with enough equations that do not determine the terms.',
-        ref='DESIGN.md §6 C20'),
+        ref='DESIGN.md §5 C20'),
     'C16': dict(
         technique='Lean 4 proof on a hand model of the two handle tables + lock-step correspondence run + abstract name/handle table oracle driven interactively',
         text='Calibration table: add returns the index at which the calibration sits and which find then returns, adding an existing name replaces in place, '
@@ -122,7 +122,7 @@ CHECKS = {
              'a refused delete changes nothing. Interactive random histories (deleted, reused, predefined, invalid handles; several vnacal_new_t; calibrations built from '
              'handles deleted while in use must still correct a device) are checked against an abstract table and the model answers every line it models identically.',
         note='Lean kernel + standard axioms; Model/CalTable.lean hand-written (the first_free invariant of the C is a hypothesis of alloc_fresh); numerics of solve are not part of this model.',
-        ref='DESIGN.md §6 C16'),
+        ref='DESIGN.md §5 C16'),
     'C06': dict(
         technique='Lean 4 proof (format-level logic: cell order and symmetric completion, engineering notation, normalisation and polar coordinates, NPD field bookkeeping) on a hand model + correspondence run + independent reader of the three formats as oracle',
         text='Theorems for every port count, matrix and precision: each Touchstone value pair lands in the cell it denotes (Full in both two-port orders, Upper/Lower with symmetric '
@@ -134,7 +134,7 @@ CHECKS = {
         note='Lean kernel + standard axioms; Model/FileFmt.lean hand-written, tied by the correspondence run (cell order observed through files whose k-th value is k, digit layout of '
              'every number written, field counts); decimal conversion (printf/strtod), libm and the conversions (C04/C05) are trusted; format lists made only of scalar blocks '
              '(IL, RL, VSWR) cannot be loaded by design and are exempt from the load half; fprecision so low that frequencies coincide is exempt from the load half.',
-        ref='DESIGN.md §6 C06'),
+        ref='DESIGN.md §5 C06'),
     'C07': dict(
         technique='Lean 4 proof (calibration-table model: load of a saved name list has no holes, indices follow the saved order, save . load . save = save) + correspondence of the loaded layout + independent libyaml reading of the file and fixed-point / apply comparison as oracle',
         text='Theorems on the table model of C16: loading a list of distinct names puts the i-th saved calibration at index i and leaves no hole, the end is the number of names, and '
@@ -145,7 +145,7 @@ CHECKS = {
              '`#VNACAL 2.0` layout load to the same terms.',
         note='Lean kernel + standard axioms; Model/CalTable.lean hand-written, tied by the C16 correspondence run and the layout comparison here; libyaml, printf/strtod trusted; the '
              'equality of error terms is decided by the oracle, not by a theorem; an fprecision so low that neighbouring frequencies coincide is exempt from the load half.',
-        ref='DESIGN.md §6 C07'),
+        ref='DESIGN.md §5 C07'),
     'C08': dict(
         technique='Lean 4 proof (option line as a fold: case- and order-independence; storage/order/framing equivalences as corollaries of the C06 theorems; exact unit scaling) on a hand model + correspondence run on random option lines + independent writer of equivalent spellings as oracle',
         text='Theorems: the option line result does not depend on letter case, nor on the order of its items when no field is given twice (last occurrence wins otherwise); '
@@ -156,7 +156,7 @@ CHECKS = {
         note='Lean kernel + standard axioms; Model/TsOption.lean and Model/FileFmt.lean hand-written, tied by correspondence runs (random option lines incl. repeated and '
              'malformed ones; cell orders); the character-level scanner (comments, blanks, line breaks) is exercised by the spellings only, not modelled; strtod/libm trusted; '
              '[Begin Information] sections and a blank after the comma of an NPD #:parameters list are not claimed as allowed spellings.',
-        ref='DESIGN.md §6 C08'),
+        ref='DESIGN.md §5 C08'),
     'C09': dict(
         technique='Lean 4 proof (NPD record scanner as a total function: well-formed fields, progress, bounded record count; bounds theorems of C06) on a hand model + correspondence through the loader diagnostics + structure-aware mutation fuzzing under ASan/UBSan as oracle',
         text='Theorems: the NPD scanner model is total (structural recursion), every field it returns is non-empty and blank-free, every record consumes input, a file of n bytes has at '
@@ -166,7 +166,7 @@ CHECKS = {
              'dimensions fit its type and that saves and re-loads to the same content (.vnacal: save/load/save fixed point).',
         note='Lean kernel + standard axioms; totality of the C parsers over all byte strings is sampled by the fuzzing, not proved: only the NPD scanner is modelled (Model/NpdScan.lean), tied '
              'through the loader\'s own `expected N fields; found M` messages; libyaml is trusted; allocations above 1 GiB are refused by the sanitizer run-time (ENOMEM paths).',
-        ref='DESIGN.md §6 C09'),
+        ref='DESIGN.md §5 C09'),
     'C11': dict(
         technique='Lean 4 proof (errno table regenerated from the C source and decided against the manual; single-callback model of the reporting routine; frame theorems of the object models for refused calls) + sweep of invalid / boundary calls with state digests + contract read off random histories',
         text='The category -> errno switch of _vnaerr_verror is re-extracted on every run and proved equal to the table of vnaerr(3), with distinct errnos for the non-system classes; the '
@@ -177,7 +177,7 @@ CHECKS = {
              'vnadata and vnacal histories; failed solve completed later; refused add_calibration; refused saves.',
         note='Lean kernel + standard axioms; tools/tr_tables.py (clang AST) for the table; the per-call errno classes are transcribed from the manual pages; vnadata_init empties the object '
              'before validating (documented as "usable", not "unchanged"); the callback model covers _vnaerr_verror only - that each failing path calls it once is decided by the sweep.',
-        ref='DESIGN.md §6 C11'),
+        ref='DESIGN.md §5 C11'),
     'C12': dict(
         technique='Lean 4 proof (retry equivalence and invariant preservation of partially completed extensions, on the vnadata model of C15) + exhaustive single-allocation-failure injection over scripted histories of the compiled C',
         text='Theorems for every object, size and stopping point: what a failed vnadata_resize leaves behind (extensions complete up to the failing stage, the failing one '
@@ -188,7 +188,7 @@ CHECKS = {
              'exactly the fault-free outputs, nothing remains allocated.',
         note='Lean kernel + standard axioms; the theorems cover the vnadata allocation discipline only - for vnaproperty and vnacal the decision is the exhaustive injection run '
              '(every allocation site reached by the scripts, not every history); allocations inside libyaml and libc are not failed.',
-        ref='DESIGN.md §6 C12'),
+        ref='DESIGN.md §5 C12'),
     'C18': dict(
         technique='Lean 4 proof (weights leave the solutions of exactly fitting data unchanged; positivity of the weight; closed form, value at zero and range of the even-degree chi-square p-value recurrence; linear noise grids via the C10 spline theorem) + correspondence run of the C function chisq_pvalue against the model + statistical oracle on E-network data with synthetic noise',
         text='Theorems: non-zero row weights do not change the solution set of a system the data satisfy (so exact data give the unweighted calibration), with an injective coefficient '
@@ -199,7 +199,7 @@ CHECKS = {
         note='Lean kernel + standard axioms; Model/PValue.lean is tied to the very C function (its source file is compiled into the harness); the chi-square law, exp and the Gaussian '
              'generator are trusted; rates are statistical with wide bounds; in the 16-term models single reflects contribute no equations, so gross errors are placed on full-S standards; '
              'exactly determined systems (0 degrees of freedom, p-value reported as 0) are outside the property and not claimed.',
-        ref='DESIGN.md §6 C18'),
+        ref='DESIGN.md §5 C18'),
     'C19': dict(
         technique='Lean 4 proof (partial: recurrences => factorisation => solve, determinant, zero pivot <=> singular) + numeric residual oracle in extended precision + factor check on the C output',
         text='For every n and field: entries satisfying the Crout recurrences give L U = P A; the two substitution recurrences give A X = B; the accumulated '
@@ -209,7 +209,7 @@ CHECKS = {
              '_vnacommon_lu satisfy L U = P A with det = det A (the hypotheses of the theorems).',
         note='PARTIAL: that the imperative in-place loops with row swaps establish the recurrences is not proved (tied by the correspondence run of Model/LinAlg.lean and the '
              'factor check only); backward stability is a floating-point statement and is measured, not proved; QR is only exercised numerically.',
-        ref='DESIGN.md §6 C19'),
+        ref='DESIGN.md §5 C19'),
 }
 PENDING = {}
 ALL = ['C%02d' % i for i in range(1, 21)]
